@@ -118,3 +118,24 @@ pub fn is_qr(a: &BigUint, p: &BigUint) -> bool {
 pub fn hexs(v: &BigUint) -> String {
     format!("{:x}", v)
 }
+
+/// square root modulo a prime p = 5 (mod 8) (Atkin); None for non-residues. Both q and r are 5 mod 8.
+pub fn sqrt_mod_5mod8(a: &BigUint, p: &BigUint) -> Option<BigUint> {
+    let a = a % p;
+    if a.is_zero() {
+        return Some(a);
+    }
+    if !is_qr(&a, p) {
+        return None;
+    }
+    debug_assert!((p % 8u32) == BigUint::from(5u32));
+    let two_a = (&a * 2u32) % p;
+    let v = two_a.modpow(&((p - 5u32) >> 3), p);
+    let i = (&two_a * &v % p) * &v % p;
+    let x = (&a * &v % p) * ((i + p - 1u32) % p) % p;
+    if (&x * &x) % p == a {
+        Some(x)
+    } else {
+        None
+    }
+}
